@@ -265,12 +265,15 @@ func clip(s string) string {
 }
 
 func nonTrivial(res string) bool {
-	f := strings.SplitN(res, " ", 4)
-	if len(f) < 4 {
-		return len(f) >= 2 && !strings.HasPrefix(res, "bad") && !strings.HasPrefix(res, "err:")
+	if strings.HasPrefix(res, "bad") || strings.HasPrefix(res, "missing") || strings.HasPrefix(res, "hang") {
+		return false
 	}
-	// a decode result is non-trivial when a File with a decoded file_id exists or it succeeded
-	return f[0] == "ok" || strings.Contains(f[3], ";K")
+	f := strings.SplitN(res, " ", 4)
+	if len(f) == 4 && (f[0] == "ok" || strings.HasPrefix(f[0], "err:") || f[0] == "panic") {
+		// a decode result is non-trivial when it succeeded or got past the header and file_id
+		return f[0] == "ok" || strings.Contains(f[3], ";K") && !strings.Contains(f[3], ";Knone")
+	}
+	return true
 }
 
 func sigOf(res string) string {
